@@ -192,6 +192,10 @@ def run_library(case):
                     continue
                 if lib.get("raw_ignore") and re.search(lib["raw_ignore"], s, re.I):
                     continue
+                # the extra C entry point of a fortran_generic entry with a new scalar / array pattern: <name of the
+                # variant><suffix of the entry>; it must be unique (duplicates are reported above)
+                if any(s == v["c_name"] + g.get("function_suffix", "") for f in lib["functions"] for v in f["variants"] for g in (f.get("generic") or []) if "rank(" in g.get("decl", "")):
+                    continue
                 if s.startswith(prefix + "SHROUD_") or s.startswith(prefix + "Shroud") or re.search(r"_(get_instance|set_instance|associated|final|dtor)$", s):
                     continue
                 res["violations"].append({"mech": "unpredicted-c-symbol:%s" % re.sub(r"g\d+", "G", s)[:30],
@@ -366,6 +370,64 @@ def _kind(lib, cname):
     return "?"
 
 
+def rank_generic_groups():
+    """An overload pair and a defaulted function whose fortran_generic entries differ in rank from the C declaration:
+    Shroud adds one more C entry point per new scalar / array pattern, named after the overload / default variant AND
+    the entry (docs/fortran.rst fortran_generic; generic.yaml SavePointer)."""
+    gi = [{"decl": "(const int *values)", "function_suffix": "_scalar"}, {"decl": "(const int *values +rank(1))", "function_suffix": "_array"}]
+    gd = [{"decl": "(const double *values)", "function_suffix": "_scalar"}, {"decl": "(const double *values +rank(1))", "function_suffix": "_array"}]
+    g1 = [F("sumv", "int", [P("values", "ptr_in", "int"), P("nv", "val", "int")], fid="sumv#i", generic=gi),
+          F("sumv", "double", [P("values", "ptr_in", "double"), P("nv", "val", "int")], fid="sumv#d", generic=gd)]
+    g2 = [F("scalev", "int", [P("values", "ptr_in", "int"), P("nv", "val", "int"), P("k", "val", "int", default="2")], fid="scalev#i", generic=gi)]
+    return [g1, g2]
+
+
+def run_class_templates(case):
+    """Class templates instantiated in several scopes (library level, two namespaces): the C entry point of a member is
+    {C_prefix}{C_name_scope}{name} with C_name_scope = <namespaces>_<class>_<instantiation>_ (docs/reference.rst
+    C_name_scope, docs/templates.rst); every (scope, instantiation, member) has exactly one entry point."""
+    from .. import shroudrun
+    res = {"violations": [], "stats": {}, "name": case["name"]}
+    scopes = case["scopes"]          # [(namespace or None, class name, [instantiations], [member names incl. ctor])]
+    decls = []
+    expect = []
+    for ns, cls, insts, members in scopes:
+        md = [{"decl": "%s()" % cls}] + [{"decl": ("T %s()" % m) if not m.startswith("set") else ("void %s(T v)" % m)} for m in members]
+        ent = {"decl": "template<typename T> class %s" % cls, "cxx_template": [{"instantiation": "<%s>" % t} for t in insts], "declarations": md}
+        if ns:
+            blk = next((b for b in decls if b["decl"] == "namespace %s" % ns), None)
+            if blk is None:
+                blk = {"decl": "namespace %s" % ns, "declarations": []}
+                decls.append(blk)
+            blk["declarations"].append(ent)
+        else:
+            decls.append(ent)
+        for t in insts:
+            for m in ["ctor"] + members:
+                expect.append("%s%s%s_%s_%s" % (case["prefix"], (ns + "_") if ns else "", cls, t.replace(" ", "_"), m))
+    y = {"library": case["lib"], "cxx_header": case["lib"] + ".hpp", "language": "c++", "format": {"C_prefix": case["prefix"]},
+         "options": {"wrap_c": True, "wrap_fortran": True, "wrap_python": False, "wrap_lua": False}, "declarations": decls}
+    sp = {"name": case["name"], "files": {"work/%s.yaml" % case["lib"]: workloads.dump_yaml(y)}, "dirs": ["out"],
+          "argv": ["--outdir", "out", "--logdir", "out", "work/%s.yaml" % case["lib"]], "monitors": []}
+    rr = shroudrun.run(sp)
+    if rr.get("exc") or rr.get("exit") != 0:
+        k_, t_ = engine.reject_mech(rr)
+        res["violations"].append({"mech": "class-template:shroud-rejects:" + k_, "detail": "%s: %s" % (case["name"], t_)})
+        return res
+    protos = []
+    for rel, text in rr["outputs"].items():
+        if rel.endswith(".h"):
+            protos += re.findall(r"^[A-Za-z_][\w \*]*?\b(%s\w+)\(" % re.escape(case["prefix"]), text, re.M)
+    res["stats"]["class_template_entry_points_checked"] = len(expect)
+    for d_ in sorted({x for x in protos if protos.count(x) > 1}):
+        res["violations"].append({"mech": "duplicate-c-symbol:class-template", "detail": "%s: %s declared %d times" % (case["name"], d_, protos.count(d_))})
+    for n in expect:
+        if n not in protos:
+            res["violations"].append({"mech": "c-entry-point-missing-or-misnamed:class-template%s" % (":in-namespace" if n.count("_") > 4 else ""),
+                                      "detail": "%s: expected %s; declared: %s" % (case["name"], n, sorted(set(protos)))})
+    return res
+
+
 def cppif_cases():
     """Overload sets whose members carry cpp_if conditions (some members / every member, equal or different conditions)."""
     # cpp_if on some members of an overload set (first / last / middle member guarded)
@@ -430,6 +492,7 @@ def main(rec):
         # every other library starts with an assumed-rank declaration (processed before the modelled ones)
         cases.append({"lib": build_lib("n%d" % k, groups, "c++", [w for w in wraps if k % 2 == 0 or w in ("c", "fortran")], namespace=ns, fmt=fmt, interleave=(k % 4 >= 2),
                                        neighbour=(ASSUMED_RANK_NEIGHBOUR if k % 2 else None))})
+    cases.append({"lib": build_lib("nrank", rank_generic_groups(), "c++", ("c", "fortran"))})
     # two overloaded function templates with the same instantiation list
     tt = [F("ttname", "int", [P("t", "val", "ArgType")], template=["int", "double"], fid="tt#0"),
           F("ttname", "int", [P("t", "val", "ArgType"), P("b", "val", "int")], template=["int", "double"], fid="tt#1")]
@@ -468,6 +531,16 @@ def main(rec):
         rec.merge_stats(rr["stats"])
         for v in rr["violations"]:
             rec.violation(v["mech"], v["detail"], {"lib": c["lib"]["name"], "guarded": c["guarded"]})
+    tcases = [{"name": "ctmpl0", "lib": "bx", "prefix": "BX_", "scopes": [("geom", "Box", ["int", "double"], ["get", "set"]), ("store", "Box", ["int"], ["get", "set"]), (None, "Box", ["int"], ["get"])]},
+              {"name": "ctmpl1", "lib": "pr", "prefix": "ZQ_", "scopes": [("alpha", "Pair", ["long"], ["get"]), ("beta", "Pair", ["long", "float"], ["get", "setv"])]}]
+    tres = pool.run_cases("vf.checks.c08", tcases, func="run_class_templates", timeout=600)
+    for c, rr in zip(tcases, tres):
+        if "stats" not in rr:
+            workloads.bad_run(rec, {"name": c["name"]}, rr)
+            continue
+        rec.merge_stats(rr["stats"])
+        for v in rr["violations"]:
+            rec.violation(v["mech"], v["detail"], c)
     res = pool.run_cases("vf.checks.c08", cases, func="run_library", timeout=1800)
     for c, rr in zip(cases, res):
         if "stats" not in rr:
